@@ -28,12 +28,31 @@ def run(ctx):
         "scope: the scheme of the request = X-Forwarded-Proto if the client (a proxy in front) sent it, else that of the connection; a redirect= value outside 300..399 must leave an ordinary route to the target",
         "never sliced (in every quick run): request kinds on redirect routes - GET, HEAD, POST with a body (1 byte / 32 KiB+1), Upgrade: websocket / Websocket handshakes, Accept: text/event-stream - x 4 targets (two naming the instrumented upstream, so a request proxied instead of redirected is seen there) x {301, 308} x {plain, TLS}: all must get the configured 3xx + Location and contact no upstream; an exchange that breaks off on each of 4 attempts counts as 'never received the redirect' (timeouts excepted); strip/prepend values that need escaping (non-ASCII letter, ^) x 3 targets x 5 client paths spelling the prefix %C3%B6 / %c3%b6 / %5E",
         "never sliced: histories of 2 and 3 requests sent one after the other through ONE redirect route whose host pattern (*.<key>.test) matches several hosts - all 64 ordered pairs of 8 requests differing in host (a./b.), path (incl. %2F) and query, and each pair with the first request repeated at the end - x 4 targets ($host with $path, $host with $path and own query, $host static, $path only) x {plain, TLS}; every answer must be the one that follows from its own request alone (invariant HistoryIndependent), whatever was asked before (the histories of one target also follow one another)",
+        "never sliced: 32 bursts - 8 requests (hosts a./b., 4 paths, queries) sent at the same moment over connections opened beforehand to one of fabio's own listeners (proxy.ListenAndServeHTTP) in front of a proxy of its own that has answered no redirect yet, metrics handlers set as in main (redirect counter) - x 4 targets x {301, 302, 307, 308} x {plain, TLS}: every request gets its own answer; run twice, the second time with the race detector; a proxy process that dies (Go 'fatal error') or a data race inside fabio is a violation",
         "in the replay of TLC's cases requests to the same redirect target are issued one after the other; simultaneous requests are covered by the concurrent stress runs of the DataPlane harness (16 goroutines, every documented $path/$host form, race detector), which this check runs as its 'schedules' part",
     ]
     base.run_prop(ctx, "C13", ctx.pick(4, 1),
                   "one case per finished pipeline run TLC enumerated (quick: the slice selected by the seed plus all bad-code and self-redirect layouts; thorough: the full product); non-trivial = settled on a redirect route (answered 3xx), a redirect passed over, or an ordinary route left by a redirect= value that is no 3xx code",
-                  _pred, _corrupt, "location-path")
+                  _pred, _corrupt, "location-path", after=_burst)
     schedules(ctx)
+
+
+def _burst(ctx, cases):
+    """The cases whose requests arrive simultaneously once more, built with the race detector."""
+    import os
+    sub = os.path.join(ctx.tmp, "c13.burst.cases")
+    n = base.filter_cases(cases, sub, lambda c: c["c"]["together"])
+    if n == 0:
+        ctx.inconclusive("no simultaneous-request cases")
+        return
+    r = ctx.gotest("proxy", base.FILES["C13"], "^TestVerifC13Burst$", env={"VERIF_IN": sub}, timeout=900, race=True)
+    if base.crashed(ctx, "C13", r, "C13 simultaneous first requests") or base.raced(ctx, "C13", r, "C13 simultaneous first requests"):
+        return
+    r = base.check_run(ctx, "C13", r, "C13 simultaneous first requests (race detector)")
+    if r is None:
+        return
+    ctx.cover("burst-race", traces_validated_against_impl=r.summary["ran"], evaluations=8 * r.summary["ran"])
+    ctx.take_failures(r, "c13")
 
 
 def schedules(ctx):
